@@ -26,8 +26,11 @@ class LayoutMonitor(object):
 
         def on_compute(orig, args, kwargs):
             force = args[0]
-            rec = {"options": copy.deepcopy(force.options), "labels": list(force._nodes), "layers": [], "distribute": None, "exc": None,
-                   "stale": [(n.currentPos, n.layerIndex, n.parent is not None) for n in force._nodes[:50]]}
+            try:
+                rec = {"options": copy.deepcopy(force.options), "labels": list(force._nodes), "layers": [], "distribute": None, "exc": None}
+            except Exception as e:  # internals renamed: the monitor cannot observe -> callers see no record (inconclusive)
+                mon.events["Force.compute.unobservable"] += 1
+                return orig(*args, **kwargs)
             mon.stack.append(rec)
             try:
                 return orig(*args, **kwargs)
@@ -38,38 +41,12 @@ class LayoutMonitor(object):
                 mon.stack.pop()
                 mon.events["Force.compute"] += 1
                 rec["force"] = force
-                # cross-check: no layer moved after its own solve
-                moved = []
-                for li, L in enumerate(rec["layers"]):
-                    for node, it in zip(L["nodes"], L["items"]):
-                        if node.currentPos != it["pos"]:
-                            moved.append((li, it["pos"], node.currentPos))
-                rec["moved_after_solve"] = moved[:5]
-                # targets as the property defines them, independent of the parent pointer the code follows:
-                # layer 0 -> the data position; layer k -> the final position of the item's own stub in layer k-1
-                # (the stub of layer k-1 whose child is this item)
-                rec["target_problems"] = []
-                prev = None
-                for li, L in enumerate(rec["layers"]):
-                    if L["items"] is None:
-                        prev = None
-                        continue
-                    if li > 0 and prev is not None:
-                        by_child = {}
-                        for pn, pit in zip(prev["nodes"], prev["items"]):
-                            ch = getattr(pn, "child", None)
-                            if ch is not None:
-                                by_child[id(ch)] = pit["pos"]
-                    for node, it in zip(L["nodes"], L["items"]):
-                        it["t_parent_rule"] = it["t"]
-                        if li == 0:
-                            it["t"] = node.idealPos
-                        elif prev is not None:
-                            if id(node) in by_child:
-                                it["t"] = by_child[id(node)]
-                            else:
-                                rec["target_problems"].append({"layer": li, "rule": "item of a deeper layer has no stub in the layer below", "idealPos": node.idealPos})
-                    prev = L
+                try:
+                    mon._finish(rec)
+                except Exception as e:
+                    rec["layers"] = [{"items": None, "nodes": [], "error": "monitor post-processing failed: %s" % type(e).__name__}]
+                    rec["moved_after_solve"] = []
+                    rec["target_problems"] = []
                 mon.computes.append(rec)
 
         def on_remove_overlap(orig, args, kwargs):
@@ -112,6 +89,44 @@ class LayoutMonitor(object):
         self.p.wrap(R, "removeOverlap", on_remove_overlap)
         self.p.wrap(D.Distributor, "distribute", on_distribute)
         return self
+
+    def _finish(self, rec):
+        """Post-processing of a finished compute record (never raises into library code)."""
+        # cross-check: no layer moved after its own solve
+        moved = []
+        for li, L in enumerate(rec["layers"]):
+            if L["items"] is None:
+                continue
+            for node, it in zip(L["nodes"], L["items"]):
+                if node.currentPos != it["pos"]:
+                    moved.append((li, it["pos"], node.currentPos))
+        rec["moved_after_solve"] = moved[:5]
+        # targets as the property defines them, independent of the parent pointer the code follows:
+        # layer 0 -> the data position; layer k -> the final position of the item's own stub in layer k-1
+        # (the item of layer k-1 whose child is this item)
+        rec["target_problems"] = []
+        prev = None
+        by_child = {}
+        for li, L in enumerate(rec["layers"]):
+            if L["items"] is None:
+                prev = None
+                continue
+            if li > 0 and prev is not None:
+                by_child = {}
+                for pn, pit in zip(prev["nodes"], prev["items"]):
+                    ch = getattr(pn, "child", None)
+                    if ch is not None:
+                        by_child[id(ch)] = pit["pos"]
+            for node, it in zip(L["nodes"], L["items"]):
+                it["t_parent_rule"] = it["t"]
+                if li == 0:
+                    it["t"] = node.idealPos
+                elif prev is not None:
+                    if id(node) in by_child:
+                        it["t"] = by_child[id(node)]
+                    else:
+                        rec["target_problems"].append({"layer": li, "rule": "item of a deeper layer has no stub in the layer below", "idealPos": node.idealPos})
+            prev = L
 
     def drain(self):
         c, self.computes = self.computes, []
